@@ -3,7 +3,9 @@ package props
 import (
 	"bytes"
 	"fmt"
+	"io"
 	"os"
+	"regexp"
 	"os/exec"
 	"path/filepath"
 	"runtime"
@@ -209,6 +211,132 @@ func c05Sweep(c *core.Ctx) *core.Result {
 	return res
 }
 
+var coreTimeRe = regexp.MustCompile(`<dcterms:(created|modified)[^>]*>[^<]*</dcterms:(created|modified)>`)
+
+// c05History builds one document from a deterministic history: API script on a new document, an opened foreign
+// package that is then edited, or the script's own output reopened and edited further. Calling it twice with the
+// same arguments yields twins in the same state (process-wide registries are reset first).
+func c05History(c *core.Ctx, idx int) (*document.Document, string) {
+	r := rng.Derive(c.Seed, h64("C05agree"), uint64(idx))
+	document.VerifResetGlobals()
+	kind := []string{"new", "foreign+edits", "reopened+edits", "new"}[idx%4]
+	s := NewScript(r, false, c.WorkDir)
+	s.NoReopen = true
+	s.Weights = map[string]int{"RenderAsTemplate": 0, "Reopen": 0, "AddImageFromFile": 0}
+	switch kind {
+	case "foreign+edits":
+		f := gen.MakeForeign(rng.Derive(c.Seed, h64("C05foreign"), uint64(idx)), gen.ForeignOpts{})
+		d, err := document.OpenFromMemory(io.NopCloser(bytes.NewReader(f.Bytes(rng.Derive(c.Seed, 7, uint64(idx))))))
+		if err != nil || d == nil || d.Body == nil {
+			return nil, kind
+		}
+		s.adopt(d)
+		s.Run(r.Range(1, 12), nil)
+	case "reopened+edits":
+		s.Run(r.Range(3, 20), nil)
+		if s.Panic != nil {
+			return nil, kind
+		}
+		b, err := s.Doc.ToBytes()
+		if err != nil {
+			return nil, kind
+		}
+		d, err := document.OpenFromMemory(io.NopCloser(bytes.NewReader(b)))
+		if err != nil || d == nil || d.Body == nil {
+			return nil, kind
+		}
+		s.adopt(d)
+		s.Run(r.Range(1, 10), nil)
+	default:
+		s.Run(r.Range(1, 30), nil)
+	}
+	if s.Panic != nil {
+		return nil, kind
+	}
+	// the last edits are the ones a stale serialisation order would miss
+	switch r.Intn(4) {
+	case 0:
+		s.Doc.AddHeadingParagraph("late heading", r.Range(1, 9))
+	case 1:
+		s.Doc.AddParagraph("late styled").SetStyle("Quote")
+	case 2:
+		s.Doc.AddHeader(document.HeaderFooterTypeDefault, "late header")
+	}
+	return s.Doc, kind + "|" + s.Sig()
+}
+
+func maskCore(parts map[string][]byte) {
+	if b, ok := parts["docProps/core.xml"]; ok {
+		parts["docProps/core.xml"] = coreTimeRe.ReplaceAll(b, []byte("<t/>"))
+	}
+}
+
+// c05Agree: Save and ToBytes never disagree, whichever is called first after the last edit. Twin A is saved to a
+// path first (and serialised afterwards), twin B is serialised first (and saved afterwards); all four outputs must
+// carry the same parts.
+func c05Agree(c *core.Ctx, idx int) *core.Result {
+	res := &core.Result{}
+	a, sig := c05History(c, idx)
+	if a == nil {
+		res.Count("agree_histories_skipped", 1)
+		return res
+	}
+	kind := strings.SplitN(sig, "|", 2)[0]
+	path := filepath.Join(c.WorkDir, fmt.Sprintf("agree%d.docx", idx))
+	defer os.Remove(path)
+	var errSave, errBytes error
+	var aBytes []byte
+	if cg := core.Catch(func() { errSave = a.Save(path); aBytes, errBytes = a.ToBytes() }); cg != nil {
+		res.Count("agree_api_panics", 1)
+		return res
+	}
+	aFile, _ := os.ReadFile(path)
+	b, _ := c05History(c, idx)
+	if b == nil {
+		res.Inconcl = "twin history did not reproduce"
+		return res
+	}
+	var bBytes []byte
+	var errB, errBSave error
+	if cg := core.Catch(func() { bBytes, errB = b.ToBytes(); errBSave = b.Save(path) }); cg != nil {
+		res.Count("agree_api_panics", 1)
+		return res
+	}
+	bFile, _ := os.ReadFile(path)
+	if (errSave == nil) != (errB == nil) {
+		res.Add("agree/"+kind+"/one-entry-point-fails", fmt.Sprintf("Save-first returned %v, ToBytes-first returned %v on twins", errSave, errB), sig)
+		return res
+	}
+	if errSave != nil || errBytes != nil || errB != nil || errBSave != nil {
+		res.Count("agree_serialisation_errors", 1)
+		return res
+	}
+	ps := map[string]map[string][]byte{}
+	for n, raw := range map[string][]byte{"Save-first file": aFile, "ToBytes after Save": aBytes, "ToBytes-first": bBytes, "Save after ToBytes": bFile} {
+		pp, ok := partsOf(raw)
+		if !ok {
+			res.Add("agree/"+kind+"/unreadable-output", n+" is not a readable package", sig)
+			return res
+		}
+		maskCore(pp)
+		ps[n] = pp
+	}
+	ref := ps["ToBytes-first"]
+	for _, n := range []string{"Save-first file", "ToBytes after Save", "Save after ToBytes"} {
+		if d := sameParts(ref, ps[n]); d != "" {
+			res.Add("agree/"+kind+"/"+strings.ReplaceAll(n, " ", "-")+"-differs-from-ToBytes-first", n+" vs ToBytes-first on twin documents: "+d, sig)
+		} else if d := sameParts(ps[n], ref); d != "" {
+			res.Add("agree/"+kind+"/"+strings.ReplaceAll(n, " ", "-")+"-differs-from-ToBytes-first", "ToBytes-first vs "+n+" on twin documents: "+d, sig)
+		}
+		res.Count("agree_outputs_compared", 1)
+	}
+	res.Count("agree_twins", 1)
+	res.Nontrivial = true
+	res.Sig = "agree|" + sig
+	res.Sample = map[string]interface{}{"agreement_case": idx, "history": kind, "parts": len(ref)}
+	return res
+}
+
 func firstInts(x []int, n int) []int {
 	if len(x) > n {
 		return x[:n]
@@ -391,8 +519,9 @@ func init() {
 		Level: "fault_enumeration",
 		Rule: "documents (tiny .. several hundred KB, with incompressible images so that the 4 KiB buffer flushes often) x injected write failures: RLIMIT_FSIZE at EVERY byte offset 0..N-1 of the output for documents up to 12 KiB (quick) / 64 KiB (thorough), " +
 			"and at every 4 KiB flush boundary +-2, the last 600 bytes and a stride for larger ones; strace-injected ENOSPC/EIO/EDQUOT on the n-th write(2) and on close(2) of the target; path faults (/dev/full, below a regular file, directory as target) and positive path cases. " +
+			"plus agreement twins: the same deterministic history (new document / opened foreign package + edits / reopened + edits, ending in a late styled edit) is built twice, one twin is saved first and serialised afterwards, the other the other way round, and all four outputs must carry equal parts (docProps time stamps masked). " +
 			"Oracle: Save==nil => file is a complete package whose parts equal ToBytes taken immediately before; injected fault => Save!=nil. A case = one (document, offset chunk); non-trivial if >=1 fault point was injected; distinct = (doc, size, chunk).",
-		Cases: func(t string) int { return c05Docs(t)*c05Chunks + tierN(t, 6, 24) + tierN(t, 8, 60) },
+		Cases: func(t string) int { return c05Docs(t)*c05Chunks + tierN(t, 6, 24) + tierN(t, 8, 60) + tierN(t, 240, 6000) },
 		Run: func(c *core.Ctx) *core.Result {
 			sweep := c05Docs(c.Tier) * c05Chunks
 			nPath := tierN(c.Tier, 6, 24)
@@ -401,8 +530,10 @@ func init() {
 				return c05Sweep(c)
 			case c.Case < sweep+nPath:
 				return c05Paths(c, c.Case-sweep)
-			default:
+			case c.Case < sweep+nPath+tierN(c.Tier, 8, 60):
 				return c05Strace(c, c.Case-sweep-nPath)
+			default:
+				return c05Agree(c, c.Case-sweep-nPath-tierN(c.Tier, 8, 60))
 			}
 		},
 		Assume:        []string{"RLIMIT_FSIZE makes write(2) fail with EFBIG at the given offset (Go ignores SIGXFSZ)", "strace -e inject fails the n-th write/close on the target path", "no fsync/durability and no atomic-replace semantics are demanded"},
